@@ -50,6 +50,8 @@ def coq(v):
         assert v >= 0, v
         return '%d%%N' % v
     if isinstance(v, str):
+        if len(v) > 3 and all(32 <= ord(c) < 127 for c in v):
+            return '(s2l "%s"%%string)' % v.replace('"', '""')
         return '[' + ';'.join('%d%%N' % ord(c) for c in v) + ']'
     if isinstance(v, bytes):
         return '[' + ';'.join('%d%%N' % b for b in v) + ']'
@@ -217,7 +219,22 @@ def check_props(pid, timeout=600):
 
 
 # ----------------------------------------------------------------------------
-def run_cases(pid, imports, case_type, cases, eval_body, shard=400, timeout=600, tag='t2', extra_defs=''):
+def compile_defs(pid, imports, defs_text, tag='defs', timeout=600):
+    """compile shared definitions once; returns the import line for cases files (or None on failure, plus output)"""
+    d = os.path.join(BUILD, 'cases', pid, tag)
+    os.makedirs(d, exist_ok=True)
+    for f in glob.glob(os.path.join(d, '*')):
+        os.remove(f)
+    name = 'Defs_%s_%s' % (pid, tag)
+    p = os.path.join(d, name + '.v')
+    open(p, 'w').write('From Coq Require Import String.\n' + imports + '\n' + defs_text + '\n')
+    rc, out = sh(['timeout', str(timeout), 'coqc', '-q', '-Q', THEORIES, 'EdxmlVerif', '-Q', d, 'Cases' + pid + tag, '-w', '-all', p], cwd=d, timeout=timeout + 30)
+    if rc != 0:
+        return None, out
+    return ('From Cases%s%s Require Import %s.' % (pid, tag, name), ['-Q', d, 'Cases' + pid + tag]), out
+
+
+def run_cases(pid, imports, case_type, cases, eval_body, shard=400, timeout=600, tag='t2', extra_defs='', defs=None):
     """cases: list of Coq terms (strings) of type case_type.  eval_body: Coq function
     `case_type -> bool` returning true iff model agrees with the recorded implementation
     outcome.  Returns (list of disagreeing indices, dict idx -> raw model dump, errors)."""
@@ -229,7 +246,7 @@ def run_cases(pid, imports, case_type, cases, eval_body, shard=400, timeout=600,
     files = []
     for si, sc in enumerate(shards):
         name = 'cases_%s_%s_%d' % (pid, tag, si)
-        body = [imports, 'Set Printing Width 1000000.', 'Set Printing Depth 1000000.', extra_defs,
+        body = ['From Coq Require Import String.', imports, defs[0] if defs else '', 'Set Printing Width 1000000.', 'Set Printing Depth 1000000.', extra_defs,
                 'Definition cases : list (nat * (%s)) := [' % case_type,
                 ';\n'.join('(%d%%nat, %s)' % (si * shard + j, c) for j, c in enumerate(sc)), '].',
                 'Definition agree : (%s) -> bool := %s.' % (case_type, eval_body),
@@ -242,7 +259,7 @@ def run_cases(pid, imports, case_type, cases, eval_body, shard=400, timeout=600,
         files.append(p)
 
     def one(p):
-        return sh(['timeout', str(timeout), 'coqc', '-q', '-Q', THEORIES, 'EdxmlVerif', '-w', '-all', p], cwd=d, timeout=timeout + 30)
+        return sh(['timeout', str(timeout), 'coqc', '-q', '-Q', THEORIES, 'EdxmlVerif'] + (defs[1] if defs else []) + ['-w', '-all', p], cwd=d, timeout=timeout + 30)
 
     bad, errors = [], []
     with ThreadPoolExecutor(NPROC) as ex:
@@ -264,7 +281,7 @@ def coq_eval(pid, imports, exprs, timeout=300, tag='eval'):
     d = os.path.join(BUILD, 'cases', pid, tag)
     os.makedirs(d, exist_ok=True)
     p = os.path.join(d, 'eval_%s.v' % pid)
-    body = [imports, 'Set Printing Width 1000000.', 'Set Printing Depth 1000000.']
+    body = ['From Coq Require Import String.', imports, 'Set Printing Width 1000000.', 'Set Printing Depth 1000000.']
     for i, e in enumerate(exprs):
         body += ['Goal True. idtac "@@E%d". Abort.' % i, 'Eval vm_compute in (%s).' % e]
     body.append('Goal True. idtac "@@END". Abort.')
